@@ -60,6 +60,56 @@ def opt_groups(agent):
     return out
 
 
+def deep_wrapper_slots(agent, seen):
+    """tensors of an AgentWrapper that evo.wrapper_slots does not reach: running statistics kept in (nested) dicts / tuples of
+    RunningMeanStd objects (Dict / Tuple observation spaces, multi-agent algorithms)"""
+    import torch
+    out = []
+    if evo.unwrap(agent) is agent:
+        return out
+
+    def walk(name, v, depth):
+        if depth > 4 or isinstance(v, evo.EvolvableAlgorithm) or callable(v):
+            return
+        if isinstance(v, torch.Tensor):
+            if v.numel() > 0 and ("T", v.data_ptr()) not in seen:
+                seen.add(("T", v.data_ptr()))
+                out.append((name, "ext", ("T", v.data_ptr()), evo._fp_tensor(v)))
+        elif isinstance(v, dict):
+            for k in sorted(v, key=str):
+                walk(f"{name}.{k}", v[k], depth + 1)
+        elif isinstance(v, (list, tuple)):
+            for i, x in enumerate(v):
+                walk(f"{name}[{i}]", x, depth + 1)
+        elif hasattr(v, "__dict__") and not isinstance(v, type):
+            for k in sorted(vars(v)):
+                walk(f"{name}.{k}", vars(v)[k], depth + 1)
+    for n in sorted(vars(agent)):
+        if n not in ("agent",):
+            walk(f"wrapper.{n}", vars(agent)[n], 0)
+    return out
+
+
+def wrapper_struct(agent):
+    if evo.unwrap(agent) is agent:
+        return None
+    eps = []
+
+    def walk(v, depth):
+        if depth > 4:
+            return
+        if isinstance(v, dict):
+            for k in sorted(v, key=str):
+                walk(v[k], depth + 1)
+        elif isinstance(v, (list, tuple)):
+            for x in v:
+                walk(x, depth + 1)
+        elif hasattr(v, "epsilon"):
+            eps.append(float(v.epsilon))
+    walk(getattr(agent, "obs_rms", None), 0)
+    return {"cls": type(agent).__name__, "norm_obs_keys": getattr(agent, "norm_obs_keys", None), "epsilon": eps}
+
+
 def _coq_str(s):
     assert all(32 <= ord(c) < 127 and c != '"' for c in s), s
     return f'(s_of "{s}"%string)'
@@ -87,8 +137,7 @@ class C07(vlib.Driver):
     def boundary_ops():
         """save member 0 after a history that changed its architecture and hyper-parameters; restore through both paths,
         resume both copies identically; restore an old file after the saved agent has moved on"""
-        pair3 = lambda p, c, s: [["learn", p, s], ["learn", c, s, p], ["learn", p, s + 1], ["learn", c, s + 1, p],
-                                 ["learn", p, s + 2], ["learn", c, s + 2, p]]
+        pair3 = lambda p, c, s: [["learn", p, s], ["learn", c, s, p], ["learn", p, s + 1], ["learn", c, s + 1, p]]
         return ([["learn", 0, 1], ["learn", 0, 2], ["score", 0, 3], ["mutate", 0, "arch", 5], ["learn", 0, 3],
                  ["mutate", 0, "hp", 7], ["learn", 0, 4], ["mutate", 1, "arch", 6], ["learn", 1, 9],
                  ["save", 0], ["load", 0], ["act", 0, 5], ["act", 2, 5, 0]] + pair3(0, 2, 20) +
@@ -102,8 +151,7 @@ class C07(vlib.Driver):
         """checkpoints written right after a mutation that re-creates the optimizers, with NO learn step in between (the saved
         optimizer state is empty, so everything the optimizer knows is in its param_groups), restored into a member whose
         hyper-parameters (lr, batch_size) differ from the saved ones and through Algo.load; both copies then resume identically"""
-        pair3 = lambda p, c, s: [["learn", p, s], ["learn", c, s, p], ["learn", p, s + 1], ["learn", c, s + 1, p],
-                                 ["learn", p, s + 2], ["learn", c, s + 2, p]]
+        pair3 = lambda p, c, s: [["learn", p, s], ["learn", c, s, p], ["learn", p, s + 1], ["learn", c, s + 1, p]]
         return ([["learn", 0, 1], ["learn", 1, 2],
                  ["mutate", 1, "hp", 11, "batch_size"], ["mutate", 0, "hp", 12, "lr"],
                  ["save", 0], ["load_into", 0, 1]] + pair3(0, 1, 20) +
@@ -113,22 +161,53 @@ class C07(vlib.Driver):
                  ["save", 0], ["load_into", 2, 2]] + pair3(0, 2, 40))
 
     @staticmethod
-    def premutation_ops(k1, k2, gap1=False, gap2=True):
-        """every mutation kind immediately (or one learn step) before a save: member 0 is mutated with kind k1, saved, restored by
+    def premutation_ops(k1, k2, gap1=False, gap2=True, src=0, chain=False):
+        """every mutation kind immediately (or one learn step) before a save: member `src` is mutated with kind k1, saved, restored by
         Algo.load, and both copies choose greedy actions and learn twice from the same batches; then the same with kind k2 and
-        load_checkpoint into member 1.  What a mutation changes outside the weights (activation / architecture entries of the init
-        dicts, hyper-parameters, re-created optimizers) must come back from the file, and must still be in force when resuming."""
+        load_checkpoint into the other member.  What a mutation changes outside the weights (activation / architecture entries of the
+        init dicts, hyper-parameters, re-created optimizers) must come back from the file, and must still be in force when resuming.
+        src = 1 saves the member whose index is not the constructor default.  chain = True adds objects that are not freshly built:
+        a checkpoint of a CLONE (clone -> save -> load) and a checkpoint of a RESTORED agent (load -> save -> load_checkpoint)."""
+        a, b = src, 1 - src
+
         def mut(i, k, s):
             return ["mutate", i, "hp", s, "lr"] if k == "hp" else ["mutate", i, k, s]
-        ops = [["learn", 0, 1], ["learn", 1, 2], mut(0, k1, 21)] + ([["learn", 0, 3]] if gap1 else [])
-        ops += [["save", 0], ["load", 0], ["act", 0, 5], ["act", 2, 5, 0], ["learn", 0, 6], ["learn", 2, 6, 0], ["learn", 0, 7], ["learn", 2, 7, 0]]
-        ops += [mut(0, k2, 22)] + ([["learn", 0, 8]] if gap2 else [])
-        ops += [["save", 0], ["load_into", 1, 1], ["act", 0, 9], ["act", 1, 9, 0], ["learn", 0, 10], ["learn", 1, 10, 0], ["learn", 0, 11], ["learn", 1, 11, 0]]
+
+        def pair2(p, c, s):
+            return [["learn", p, s], ["learn", c, s, p], ["learn", p, s + 1], ["learn", c, s + 1, p]]
+        # the loading member always has scores; the saved member only when src == 0 (an EMPTY saved list must replace a non-empty one)
+        ops = [["learn", 0, 1], ["learn", 1, 2], ["score", b, 4]] + ([["score", a, 5]] if src == 0 else []) + [mut(a, k1, 21)]
+        ops += [["learn", a, 3]] if gap1 else []
+        ops += [["save", a], ["load", 0], ["act", a, 5], ["act", 2, 5, a]] + pair2(a, 2, 6)            # file 0 -> member 2
+        n, nf = 3, 1
+        if chain:
+            ops += [["save", 2], ["load_into", nf, b]] + pair2(2, b, 12)                                  # a restored agent is saved
+            nf += 1
+            ops += [["clone", a, 7], ["mutate", n, "param", 23], ["save", n], ["load", nf]] + pair2(n, n + 1, 14)   # a clone is saved
+            n, nf = n + 2, nf + 1
+        ops += [mut(a, k2, 22)] + ([["learn", a, 8]] if gap2 else [])
+        # the same file is loaded by load_checkpoint into TWO members (they must not share anything afterwards)
+        ops += [["save", a], ["load_into", nf, b], ["load_into", nf, 2], ["act", a, 9], ["act", b, 9, a]] + pair2(a, b, 10)
         return ops
 
     @staticmethod
+    def wrapper_act_ops():
+        """wrapped agents of the algorithms whose batches RSNorm.learn cannot normalise (on-policy, bandits, multi-agent): the running
+        statistics move through get_action; architecture mutation, save, both load paths, greedy actions of saved and restored agent"""
+        return [["act", 0, 1], ["act", 0, 2], ["act", 1, 3], ["mutate", 0, "arch", 4], ["act", 0, 5], ["save", 0], ["load", 0], ["load_into", 0, 1],
+                ["act", 0, 6], ["act", 2, 6, 0], ["act", 0, 7], ["act", 2, 7, 0], ["mutate", 2, "hp", 8, "lr"], ["save", 2], ["load_into", 1, 0]]
+
+    @staticmethod
+    def bound_ops():
+        """architecture mutations repeated until the configured bounds (max layers / nodes / channels of the 'full' net_config)
+        are reached, then save and restore: the init dict at a bound must rebuild the same network"""
+        return ([["learn", 0, 1]] + [["mutate", 0, "arch", 30 + k] for k in range(7)] +
+                [["learn", 0, 2], ["save", 0], ["load", 0], ["act", 0, 3], ["act", 2, 3, 0], ["learn", 0, 4], ["learn", 2, 4, 0],
+                 ["mutate", 0, "arch", 40], ["mutate", 0, "arch", 41], ["save", 0], ["load_into", 1, 1], ["learn", 0, 5], ["learn", 1, 5, 0]])
+
+    @staticmethod
     def premutation_matrix(tier):
-        """(algo, family, share, k1, k2, gap1, gap2): quick = every mutation kind x every observation family at least once, and the
+        """(algo, family, share, k1, k2, gap1, gap2, src, chain): quick = every mutation kind x every observation family at least once, and the
         activation mutation x {dict, image} for every algorithm that receives activation mutations; thorough = the full product"""
         act_algos = ["DQN", "RainbowDQN", "CQN", "NeuralUCB", "NeuralTS"]
         others = ["arch", "param", "hp", "none"]
@@ -137,12 +216,12 @@ class C07(vlib.Driver):
             j = 0
             for fam in ("dict", "image"):
                 for algo in act_algos:
-                    out.append((algo, fam, False, "act", others[j % 4], j % 2 == 1, j % 2 == 0))
+                    out.append((algo, fam, False, "act", others[j % 4], j % 2 == 1, j % 2 == 0, j % 2, j in (2, 7)))
                     j += 1
-            out += [("DDPG", "vector", True, "none", "arch", False, True), ("TD3", "vector", False, "param", "hp", True, False),
-                    ("PPO", "vector", True, "act", "none", False, False), ("NeuralTS", "vector", False, "act", "param", False, True),
-                    ("MADDPG", "discrete", False, "arch", "param", False, True), ("MATD3", "discrete", False, "hp", "act", True, False),
-                    ("IPPO", "discrete", False, "none", "arch", False, False), ("CQN", "discrete", False, "act", "hp", True, False)]
+            out += [("DDPG", "vector", True, "none", "arch", False, True, 1, False), ("TD3", "vector", False, "param", "hp", True, False, 0, True),
+                    ("PPO", "vector", True, "act", "none", False, False, 1, False), ("NeuralTS", "vector", False, "act", "param", False, True, 0, False),
+                    ("MADDPG", "discrete", False, "arch", "param", False, True, 1, True), ("MATD3", "discrete", False, "hp", "act", True, False, 0, False),
+                    ("IPPO", "discrete", False, "none", "arch", False, False, 1, False), ("CQN", "discrete", False, "act", "hp", True, False, 1, False)]
         else:
             kinds = ["act"] + others
             j = 0
@@ -151,7 +230,7 @@ class C07(vlib.Driver):
                     for a in range(0, len(kinds), 2):
                         k1 = kinds[(a + j) % 5]
                         k2 = kinds[(a + 1 + j) % 5]
-                        out.append((algo, fam, algo in evo.SHARE_CAPABLE and j % 2 == 0, k1, k2, j % 2 == 1, j % 3 == 0))
+                        out.append((algo, fam, algo in evo.SHARE_CAPABLE and j % 2 == 0, k1, k2, j % 2 == 1, j % 3 == 0, (j // 2) % 2, j % 4 == 1))
                         j += 1
         return out
 
@@ -204,11 +283,12 @@ class C07(vlib.Driver):
                         ops.append(["learn", j, rng.randrange(1000)])
             return ops
 
-        def add(algo, family, share, netcfg, L, seed, nag=2, wrapper=False, ops=None):
+        def add(algo, family, share, netcfg, L, seed, nag=2, wrapper=False, ops=None, **extra):
             c = {"algo": algo, "family": family, "share": share, "netcfg": netcfg, "seed": seed, "pop": nag,
                  "ops": ops if ops is not None else history(nag, L, rng)}
             if wrapper:
                 c["wrapper"] = True
+            c.update(extra)
             cases.append(c)
 
         only = os.environ.get("VERIF_C07_ONLY")      # developer shortcut for the mutation self-test (never registered)
@@ -218,14 +298,44 @@ class C07(vlib.Driver):
         add("DQN", "vector", False, "partial", 0, 2, wrapper=True, ops=self.boundary_ops())
         for algo in algos:
             add(algo, "vector", algo == "PPO", "partial", 0, 3, ops=self.fresh_optimizer_ops())
-        for n_, (algo, fam, share, k1, k2, g1, g2) in enumerate(self.premutation_matrix(tier)):
-            add(algo, fam, share, ["partial", "none", "full"][n_ % 3], 0, 4 + n_ % 3, ops=self.premutation_ops(k1, k2, g1, g2))
+        for n_, (algo, fam, share, k1, k2, g1, g2, src, chain) in enumerate(self.premutation_matrix(tier)):
+            add(algo, fam, share, ["partial", "none", "full"][n_ % 3], 0, 4 + n_ % 3, ops=self.premutation_ops(k1, k2, g1, g2, src, chain))
+        # configurations beyond the default encoders: heterogeneous multi-agent observation spaces, caller-ordered agent ids,
+        # ResNet encoder, MakeEvolvable-wrapped plain torch networks
+        P = self.premutation_ops
+        add("MADDPG", "vector", False, "partial", 0, 7, ops=P("arch", "param", False, True, 1, False), hetero=True)
+        add("IPPO", "vector", False, "partial", 0, 8, ops=P("hp", "arch", True, False, 0, False), hetero=True, ids="rev")
+        add("DQN", "image", False, "resnet", 0, 9, ops=P("arch", "act", False, True, 1, False))
+        add("DQN", "vector", False, "custom", 0, 10, ops=P("arch", "hp", False, False, 0, True))
+        # AgentWrapper beyond DQN/DDPG on vector observations: non-default constructor arguments (wrapper_init_dict), per-key
+        # statistics of Dict observations (nested dicts of RunningMeanStd), algorithms driven through get_action only
+        add("DQN", "dict", False, "partial", 0, 17, wrapper={"epsilon": 0.001}, ops=P("act", "arch", False, True, 1, False))
+        add("PPO", "vector", False, "partial", 0, 18, wrapper=True, ops=self.wrapper_act_ops())
+        add("CQN", "vector", False, "full", 0, 24, ops=self.bound_ops())
+        if tier != "quick":
+            add("DQN", "image", False, "full", 0, 25, ops=self.bound_ops())
+            add("PPO", "vector", True, "full", 0, 26, ops=self.bound_ops())
+            add("MADDPG", "vector", False, "full", 0, 27, ops=self.bound_ops())
+            add("NeuralTS", "vector", False, "none", 0, 19, wrapper={"epsilon": 0.01}, ops=self.wrapper_act_ops())
+            add("PPO", "dict", True, "partial", 0, 20, wrapper={"epsilon": 0.001}, ops=self.wrapper_act_ops())
+            add("TD3", "dict", False, "partial", 0, 21, wrapper={"epsilon": 0.001}, ops=P("arch", "hp", True, False, 0, True))
+            add("DQN", "image", False, "partial", 0, 22, wrapper=True, ops=P("act", "param", False, True, 1, False))
+            add("DDPG", "discrete", False, "full", 0, 23, wrapper=True, ops=self.fresh_optimizer_ops())
+            add("MATD3", "vector", False, "partial", 0, 11, ops=P("arch", "act", True, True, 0, True), hetero=True, ids="rev")
+            add("MADDPG", "vector", False, "none", 0, 12, ops=P("param", "arch", False, False, 0, False), ids="rev")
+            add("IPPO", "vector", False, "full", 0, 13, ops=P("arch", "none", False, True, 1, True), hetero=True)
+            for algo in ("RainbowDQN", "PPO", "CQN"):
+                add(algo, "image", algo == "PPO", "resnet", 0, 14, ops=P("arch", "param", True, False, 0, False))
+            for algo, fams in evo.CUSTOM_ALGOS.items():
+                for fam in fams:
+                    add(algo, fam, False, "custom", 0, 15, ops=P("act", "arch", False, True, 1, False))
+                    add(algo, fam, False, "custom", 0, 16, ops=self.fresh_optimizer_ops())
         if only == "boundary":
             return cases
         if tier == "quick":
-            for algo in algos:
+            for algo in rng.sample(algos, 5):       # the deterministic histories above cover every algorithm; 5 of them also get a seeded one
                 add(algo, "vector", False, rng.choice(["partial", "full", "none"]), 5, rng.randrange(100))
-            for algo, fam in (("DQN", "image"), ("PPO", "dict"), ("DDPG", "discrete"), ("RainbowDQN", "image")):
+            for algo, fam in ((rng.choice(["DQN", "RainbowDQN"]), "image"), (rng.choice(["PPO", "IPPO"]), "dict")):
                 add(algo, fam, False, "partial", 4, rng.randrange(100))
             add("DDPG", "vector", False, "partial", 4, rng.randrange(100), wrapper=True)
         else:
@@ -235,7 +345,7 @@ class C07(vlib.Driver):
             for algo in algos:
                 for fam in evo.FAMILIES:
                     for share in ([False, True] if algo in evo.SHARE_CAPABLE else [False]):
-                        for rep in range(2):
+                        for rep in range(1):      # (the deterministic matrix above adds 132 histories over the same product)
                             add(algo, fam, share, rng.choice(["partial", "full", "none"]), rng.choice([5, 8, 10]),
                                 rng.randrange(1000), nag=rng.choice([2, 3]))
         return cases
@@ -246,12 +356,26 @@ class C07(vlib.Driver):
         torch.set_num_threads(1)
         FILES.mkdir(parents=True, exist_ok=True)
         spec = {k: case[k] for k in ("algo", "family", "share", "netcfg", "seed")}
-        shared_cfg = evo.net_config_for(case["netcfg"], case["family"])
+        if case.get("ids"):
+            spec["ids"] = case["ids"]          # multi-agent: caller-chosen (unsorted) agent id order
+        shared_cfg = None if case["netcfg"] == "custom" else evo.net_config_for(case["netcfg"], case["family"])
         hp = evo.hp_config_for(case["algo"])
-        pop = [evo.build_agent(dict(spec, index=i, _hp_obj=hp), shared_cfg=shared_cfg) for i in range(case["pop"])]
+        orig_space = evo.obs_space
+        if case.get("hetero"):
+            # multi-agent algorithms with DIFFERENT observation spaces per agent: the per-agent networks (and their init dicts,
+            # state dicts, optimizer parameter lists) are not interchangeable
+            from gymnasium import spaces as _sp
+            import numpy as _np
+            dims = iter([3, 5] * 64)
+            evo.obs_space = lambda family: _sp.Box(-1.0, 1.0, (next(dims),), _np.float32)
+        try:
+            pop = [evo.build_agent(dict(spec, index=i, _hp_obj=hp), shared_cfg=shared_cfg) for i in range(case["pop"])]
+        finally:
+            evo.obs_space = orig_space
         if case.get("wrapper"):
             from agilerl.wrappers.agent import RSNorm
-            pop = [RSNorm(a) for a in pop]
+            wkw = case["wrapper"] if isinstance(case["wrapper"], dict) else {}
+            pop = [RSNorm(a, **wkw) for a in pop]
         cls = evo.algo_class(case["algo"])
         reg = evo.registry_plus(pop[0])
         a0 = evo.unwrap(pop[0])
@@ -320,6 +444,9 @@ class C07(vlib.Driver):
             st = ag["struct"]
             for name, groups in opt_groups(member).items():
                 st["opts"][name]["groups"] = json.loads(json.dumps(groups, default=str))
+            st["wrapper"] = wrapper_struct(member)
+            extra = deep_wrapper_slots(member, {tuple(s_[2]) for s_ in ag["slots"]})
+            ag = dict(ag, slots=list(ag["slots"]) + extra)
             for d in st["nets"].values():
                 # C01 known finding (faithful@dict:{MADDPG,MATD3,IPPO}:arch, frame@dict:*:struct): multi-agent networks built
                 # without an explicit cnn_config share the module-level DefaultCnnConfig object, whose block_type is flipped
@@ -551,6 +678,8 @@ class C07(vlib.Driver):
                                      f"{y['lrs']} (restored); state tensors {x['nstate']} vs {y['nstate']}; differing param_group entries (group, key, saved, restored) {gd[:6]}"))
             if not y["refs_ok"]:
                 out.append(Violation("restore", sig("restore", path, "optrefs"), f"{what}: optimizer {o} of the restored agent does not hold the restored parameters"))
+        if ps.get("wrapper") != cs.get("wrapper"):
+            out.append(Violation("restore", sig("restore", path, "wrapper"), f"{what}: wrapper configuration differs (saved, restored): {ps.get('wrapper')} vs {cs.get('wrapper')}"))
         if ps["books"] != cs["books"] or ps["mut"] != cs["mut"]:
             out.append(Violation("restore", sig("restore", path, "book"), f"{what}: bookkeeping differs {ps['books']}/{ps['mut']} vs {cs['books']}/{cs['mut']}"))
         if cs["index"] != ps["index"]:
@@ -578,7 +707,7 @@ class C07(vlib.Driver):
         return out
 
     def key(self, case):
-        return json.dumps([case["algo"], case["family"], case["share"], case["netcfg"], bool(case.get("wrapper")),
+        return json.dumps([case["algo"], case["family"], case["share"], case["netcfg"], bool(case.get("wrapper")), bool(case.get("hetero")), case.get("ids"),
                            [o[0] if o[0] != "mutate" else ":".join([o[0], o[2]] + [str(x) for x in o[4:]]) for o in case["ops"]]])
 
     def nontrivial(self, case, obs):
@@ -612,7 +741,7 @@ class C07(vlib.Driver):
 
     def classify(self, case, obs):
         labs = [f"algo={case['algo']}", f"family={case['family']}", f"wrapper={bool(case.get('wrapper'))}", f"share={case['share']}",
-                f"netcfg={case['netcfg']}", f"len={min(len(case['ops']) // 8 * 8, 32)}+"]
+                f"netcfg={case['netcfg']}", f"hetero={bool(case.get('hetero'))}", f"ids={case.get('ids')}", f"len={min(len(case['ops']) // 8 * 8, 32)}+"]
         for o in case["ops"]:
             labs.append("op=" + (o[0] if o[0] != "mutate" else ":".join(["mutate", o[2]] + [str(x) for x in o[4:]])))
         for r in obs["recs"]:
@@ -625,7 +754,9 @@ class C07(vlib.Driver):
         return labs
 
     def neighbours(self, case, rng):
-        for cut in range(len(case["ops"]) - 1, 0, -1):
+        """prefixes of the history that end right after a restore (at most 2, longest first)"""
+        cuts = [t + 1 for t, o in enumerate(case["ops"]) if o[0] in ("load", "load_into") and t + 1 < len(case["ops"])]
+        for cut in sorted(cuts, reverse=True)[:2]:
             c = dict(case)
             c["ops"] = case["ops"][:cut]
             yield c
